@@ -76,8 +76,7 @@ pub fn c09_label_name_regex_3chars() {
 }
 
 /// `Desc::new` applies the checks: symbolic 2-char metric name and variable label, help empty or not.
-#[cfg_attr(kani, kani::proof, kani::unwind(8),
-    kani::stub(std::fmt::format, fmt_stub))]
+#[cfg_attr(kani, kani::proof, kani::unwind(8))]
 pub fn c09_desc_new_checks_names() {
     let name = SymStr::<2>::new();
     let label = SymStr::<2>::new();
@@ -118,8 +117,7 @@ fn any_k() -> u8 {
 }
 
 /// Duplicate detection across one const and two variable labels (names symbolic from the pool).
-#[cfg_attr(kani, kani::proof, kani::unwind(6),
-    kani::stub(std::fmt::format, fmt_stub))]
+#[cfg_attr(kani, kani::proof, kani::unwind(6))]
 pub fn c09_desc_new_rejects_duplicate_label_names() {
     let (c1, v1, v2) = (any_k(), any_k(), any_k());
     let mut cl = HashMap::new();
@@ -135,8 +133,7 @@ pub fn c09_desc_new_rejects_duplicate_label_names() {
 }
 
 /// Two const labels + one variable label.
-#[cfg_attr(kani, kani::proof, kani::unwind(6),
-    kani::stub(std::fmt::format, fmt_stub))]
+#[cfg_attr(kani, kani::proof, kani::unwind(6))]
 pub fn c09_desc_new_two_const_one_variable() {
     let (c1, c2, v1) = (any_k(), any_k(), any_k());
     assume(c1 != c2); // a map cannot hold the same key twice
@@ -151,22 +148,22 @@ pub fn c09_desc_new_two_const_one_variable() {
     std::mem::forget(r);
 }
 
-/// Histograms reject the reserved label name `le` (const or variable).
+fn le_case(const_name: &str, var_name: &str, expect_ok: bool) {
+    let mut opts = crate::histogram::HistogramOpts::new("m", "h").buckets(vec![1.0]);
+    opts.common_opts.const_labels.insert(String::from(const_name), String::from("1"));
+    opts.common_opts.variable_labels.push(String::from(var_name));
+    let r = crate::histogram::HistogramCore::new(&opts, &["x"]);
+    assert!(r.is_ok() == expect_ok, "C09 histograms reject the reserved label name le");
+    std::mem::forget(r);
+}
+/// Histograms reject the reserved label name `le`, as const label and as variable label.
 #[cfg_attr(kani, kani::proof, kani::unwind(6),
     kani::stub(std::fmt::format, fmt_stub),
     kani::stub(<[crate::proto::LabelPair]>::sort, sort_stub))]
 pub fn c09_histogram_rejects_le() {
-    let (c1, v1) = (any_k(), any_k());
-    assume(c1 < 4 && v1 < 4 && c1 != v1);
-    let mut opts = crate::histogram::HistogramOpts::new("m", "h").buckets(vec![1.0]);
-    opts.common_opts.const_labels.insert(pool_string(c1), String::from("1"));
-    opts.common_opts.variable_labels.push(pool_string(v1));
-    let r = crate::histogram::HistogramCore::new(&opts, &["x"]);
-    let has_le = c1 == 3 || v1 == 3;
-    vcover!(c1 == 3, "c09.le: const le");
-    vcover!(v1 == 3, "c09.le: variable le");
-    assert!(r.is_ok() == !has_le, "C09 histograms reject the reserved label name le");
-    std::mem::forget(r);
+    le_case("le", "aa", false);
+    le_case("aa", "le", false);
+    le_case("aa", "bb", true);
 }
 
 pub fn dispatch(name: &str) -> Option<fn()> {
